@@ -4,16 +4,23 @@
   Impl  = MongoModel.AggHeap (object identities; each stage by its edit discipline
           `Disc.reference`, tied to /repo by `Generated.AggDiscipline.discipline_is_reference` and
           by the correspondence of harness/props/c16.py).
-  Spec  = the laws themselves (read-only, argument unchanged, repeatable, facet isolation).
-  D     = named classes: `sample-pops-size`, `literal-written`, `facet-sibling-nested-addfields`,
-          `facet-sibling-lookup` (known findings, witnesses below are the ones replayed on /repo).
+  Spec  = the laws themselves (read-only, argument unchanged, repeatable, facet isolation, $out).
+  D     = empty for pipelines without `$out` and for `… ++ [$out]`.  The four former exclusion
+          classes `sample-pops-size`, `literal-written`, `facet-sibling-nested-addfields`,
+          `facet-sibling-lookup` were defects of /repo and are repaired; `Disc.reference` is the
+          repaired discipline, and the theorems `unrepaired_*` show that every one of the laws
+          FAILS under the discipline /repo had before (`Disc.unrepaired`), on the witnesses the
+          check still replays.
 
-  STATUS (see the report): the frame lemmas and the witnesses are proved; `aggregate_readonly` is
-  proved for the stages that perform no in-place write (`Stage.pure`) and, for the writing
-  stages, reduced to the frame lemma `write_keeps_store` + `source_is_fresh`; the induction over
-  all stages that threads the "no store identity in the working data" invariant is NOT done.
+  The theorems quantify over every pipeline of the modelled stages (all the writing ones
+  included: `$lookup`, `$addFields/$set` on dotted paths, `$sample`, `$facet`, nested), every
+  state and every value-level semantics `Sem`.  The one hypothesis on states, `State.persistent`,
+  is the name-space convention of the model: what persists between calls holds no run-local
+  identity.  The proof carries the invariant `WInv` ("what the call works on was allocated by the
+  call, in a window of identities nothing persistent lives in") through every stage and every
+  `$facet` branch (Proofs/C16Inv.lean).
 -/
-import Proofs.C16
+import Proofs.C16Top
 import Generated.AggDiscipline
 
 namespace MongoModel.Props.C16
@@ -54,32 +61,6 @@ theorem source_is_fresh (s : State) (coll : String) :
 theorem copy_equals_value (v : HV) (n : Nat) : (deepTmp v n).1.toVal = v.toVal :=
   deepTmp_toVal v n
 
-/-! ### read-only -/
-
-/-- a stage that performs no in-place write and is not `$out` leaves every collection, every
-    index entry and the pipeline object as they are — for every discipline and every value-level
-    semantics -/
-theorem aggregate_readonly_partial (D : Disc) (sem : Sem) (w w' : World) (st : Stage)
-    (hp : st.pure = true) (h : runStage D sem w st = .ok w') :
-    w'.colls = w.colls ∧ w'.idx = w.idx ∧ w'.pipe = w.pipe ∧ w'.stack = w.stack := by
-  cases st <;> simp [Stage.pure] at hp
-  all_goals (simp only [runStage] at h)
-  · split at h
-    · cases h; exact ⟨rfl, rfl, rfl, rfl⟩
-    · cases h
-  · split at h
-    · cases h; exact ⟨rfl, rfl, rfl, rfl⟩
-    · cases h
-  · split at h
-    · cases h
-    · cases h; exact ⟨rfl, rfl, rfl, rfl⟩
-  · split at h
-    · cases h; exact ⟨rfl, rfl, rfl, rfl⟩
-    · cases h
-  · cases h; exact ⟨rfl, rfl, rfl, rfl⟩
-
-example : Stage.pure (.unwind "arr" true) = true ∧ Stage.pure (.count "n") = true := by decide
-
 /-! ### the witnesses (the same pipelines are replayed on /repo by the check) -/
 
 def doc0 : HV := .node (.st 0) true
@@ -91,22 +72,6 @@ def mkState (pipe : HV) : State := { colls := [("a", [doc0]), ("b", [docB])], id
 /-- `[{'$sample': {'size': 1}}]` -/
 def pipeSample : HV := .node (.cl 0) false [("", .node (.cl 1) true
   [("$sample", .node (.cl 2) true [("size", .atom (.int 1))])])]
-
-/-- full statement: a successful call leaves the caller's pipeline object equal to what it was -/
-def pipeline_arg_unchanged_full : Prop :=
-  ∀ (sem : Sem) (s : State) (coll : String),
-    ((after Disc.reference sem s coll).all (fun s' => s'.pipe.toVal == s.pipe.toVal)) = true
-
-/-- `$sample` pops `size` out of the caller's dict … -/
-theorem pipeline_arg_unchanged_full_fails : ¬ pipeline_arg_unchanged_full := by
-  intro h
-  exact absurd (h Sem.trivial (mkState pipeSample) "a") (by decide +kernel)
-
-/-- … and the second run of the same pipeline object raises -/
-theorem sample_second_run_fails :
-    ((after Disc.reference Sem.trivial (mkState pipeSample) "a").map
-      (fun s' => (observe Disc.reference Sem.trivial s' "a").isNone)) = some true := by
-  decide +kernel
 
 /-- `[{'$facet': {'x': [{'$addFields': {'a.z': 9}}], 'y': [{'$match': {}}]}}]` -/
 def pipeFacetAdd : HV := .node (.cl 0) false [("", .node (.cl 1) true
@@ -124,50 +89,233 @@ def pipeFacetLookup : HV := .node (.cl 0) false [("", .node (.cl 1) true
            ("foreignField", .atom (.str "k")), ("as", .atom (.str "j"))])])]),
      ("y", .node (.cl 6) false [("", .node (.cl 7) true [("$match", .node (.cl 8) true [])])])])])]
 
-/-- the value of branch `y` (which only matches everything) inside the facet -/
-def branchY (pipe : HV) : Option Val :=
-  (observe Disc.reference Sem.trivial (mkState pipe) "a").bind (fun o =>
-    match o.1 with
-    | [.doc fs] => dget "y" fs
-    | _ => none)
+/-- `[{'$addFields': {'n': {'$literal': {'q': 1}}}}, {'$addFields': {'n.z': 9}}]` -/
+def pipeLiteral : HV := .node (.cl 0) false
+  [("", .node (.cl 1) true [("$addFields", .node (.cl 2) true
+      [("n", .node (.cl 3) true [("$literal", .node (.cl 4) true [("q", .atom (.int 1))])])])]),
+   ("", .node (.cl 5) true [("$addFields", .node (.cl 6) true [("n.z", .atom (.int 9))])])]
 
-/-- full statement (on the two witnesses' shape): a branch that hands its input on unchanged
-    returns the stored documents -/
-def facet_isolated_full : Prop :=
-  ∀ pipe ∈ [pipeFacetAdd, pipeFacetLookup], (branchY pipe).all (· == .arr [doc0.toVal]) = true
-
-/-- the sibling's `$addFields` on a nested path is seen by branch `y` -/
-theorem facet_isolated_full_fails : ¬ facet_isolated_full := by
-  intro h
-  exact absurd (h pipeFacetAdd (by simp)) (by decide +kernel)
-
-/-- … and so is the field a sibling's `$lookup` writes into the shared document -/
-theorem facet_isolated_full_fails_lookup :
-    (branchY pipeFacetLookup).all (· == .arr [doc0.toVal]) = false := by
+/-- the witnesses are inside the hypotheses of the theorems below, and their runs succeed -/
+theorem witnesses_in_domain :
+    ∀ pipe ∈ [pipeSample, pipeFacetAdd, pipeFacetLookup, pipeLiteral],
+      (mkState pipe).persistent = true ∧ noOutStages (parsePipe pipe) = true ∧
+      (after Disc.reference Sem.trivial (mkState pipe) "a").isSome = true := by
   decide +kernel
 
-/-- the witnesses leave the store alone (instances of read-only on WRITING pipelines) -/
-theorem witnesses_readonly :
-    ∀ pipe ∈ [pipeSample, pipeFacetAdd, pipeFacetLookup],
-      ((observe Disc.reference Sem.trivial (mkState pipe) "a").all
-        (fun o => o.2.2 == [("a", [doc0.toVal]), ("b", [docB.toVal])])) = true := by
+/-! ### read-only -/
+
+/-- **read-only, every stage**: running ANY stage list without `$out` — `$lookup`, `$addFields` on
+    nested paths, `$sample`, `$facet` with editing branches, nested — leaves every collection,
+    every index entry and the store's counter identical (objects and values), and everything the
+    call returns is made of objects the call allocated -/
+theorem aggregate_readonly_stages (sem : Sem) (s : State) (coll : String) (stages : List Stage)
+    (w : World) (hp : s.persistent = true) (hno : noOutStages stages = true)
+    (h : aggregateStages Disc.reference sem s coll stages = .ok w) :
+    w.colls = s.colls ∧ w.idx = s.idx ∧ w.nextSt = s.nextSt ∧ allL Id.isTmp w.work = true := by
+  have := aggregateStages_readonly sem s coll stages w hp hno h
+  exact ⟨this.1, this.2.1, this.2.2.2.1, this.2.2.2.2⟩
+
+/-- **read-only**: `db[coll].aggregate(pipe)` without `$out` changes no document, no index entry
+    and no catalog entry of any collection -/
+theorem aggregate_readonly (sem : Sem) (s s' : State) (coll : String) (out : List HV)
+    (hp : s.persistent = true) (hno : noOutStages (parsePipe s.pipe) = true)
+    (h : aggregate Disc.reference sem s coll = .ok (out, s')) :
+    s'.colls = s.colls ∧ s'.idx = s.idx ∧ s'.nextSt = s.nextSt := by
+  simp only [aggregate] at h
+  split at h
+  · next w hw =>
+    cases h
+    have := aggregateStages_readonly sem s coll _ w hp hno hw
+    exact ⟨this.1, this.2.1, this.2.2.2.1⟩
+  · cases h
+
+/-! ### the pipeline argument -/
+
+/-- **the caller's pipeline object is left alone** — the very object, not just its value — by
+    every pipeline without `$out` … -/
+theorem pipeline_arg_unchanged (sem : Sem) (s s' : State) (coll : String) (out : List HV)
+    (hp : s.persistent = true) (hno : noOutStages (parsePipe s.pipe) = true)
+    (h : aggregate Disc.reference sem s coll = .ok (out, s')) : s'.pipe = s.pipe := by
+  simp only [aggregate] at h
+  split at h
+  · next w hw =>
+    cases h
+    exact (aggregateStages_readonly sem s coll _ w hp hno hw).2.2.1
+  · cases h
+
+/-- … and by every pipeline that ends in `$out` (where MongoDB allows it) -/
+theorem pipeline_arg_unchanged_out (sem : Sem) (s s' : State) (coll target : String)
+    (pre : List Stage) (out : List HV) (hp : s.persistent = true)
+    (hpre : parsePipe s.pipe = pre ++ [.out target]) (hno : noOutStages pre = true)
+    (h : aggregate Disc.reference sem s coll = .ok (out, s')) : s'.pipe = s.pipe := by
+  simp only [aggregate, hpre] at h
+  split at h
+  · next w hw =>
+    cases h
+    exact aggregateStages_out_pipe sem s coll target pre w hp hno hw
+  · cases h
+
+/-- `[{'$replaceRoot': {'newRoot': {'$literal': {'q': 1}}}}, {'$out': 'c'}]`: `$out` writes the
+    generated `_id` into the literal's copy -/
+def pipeLiteralOut : HV := .node (.cl 0) false
+  [("", .node (.cl 1) true [("$replaceRoot", .node (.cl 2) true
+      [("newRoot", .node (.cl 3) true [("$literal", .node (.cl 4) true [("q", .atom (.int 1))])])])]),
+   ("", .node (.cl 5) true [("$out", .atom (.str "c"))])]
+
+example : (mkState pipeLiteralOut).persistent = true ∧
+    (∃ pre, parsePipe pipeLiteralOut = pre ++ [.out "c"] ∧ noOutStages pre = true) ∧
+    (after Disc.reference Sem.trivial (mkState pipeLiteralOut) "a").isSome = true :=
+  ⟨by decide, ⟨[.replaceRoot (.lit [0, 0, 0, 0])], by rfl, by decide⟩, by decide +kernel⟩
+
+/-! ### `$out` -/
+
+/-- **`$out` replaces the target with exactly the pipeline's output**: after `pre ++ [$out t]`,
+    when the documents `pre` returns carry their `_id`, collection `t` holds exactly those
+    documents (as values, in order) and every other collection is what it was before the call.
+    (Documents without `_id` get a generated one written into them first; for those the check's
+    direct oracle compares target, returned documents and prefix output on /repo.) -/
+theorem out_replaces_target (sem : Sem) (s : State) (coll target : String) (pre : List Stage)
+    (w' : World) (hp : s.persistent = true) (hno : noOutStages pre = true)
+    (h : aggregateStages Disc.reference sem s coll (pre ++ [.out target]) = .ok w') :
+    ∃ w, aggregateStages Disc.reference sem s coll pre = .ok w ∧
+      (allHaveId w.work = true →
+        toVals (getColl target w'.colls) = toVals w.work ∧
+        ∀ c, c ≠ target → getColl c w'.colls = getColl c s.colls) := by
+  obtain ⟨w, hw, ho⟩ := aggregateStages_out_split sem s coll target pre w' h
+  refine ⟨w, hw, fun ha => ?_⟩
+  have hr := outStage_replaces sem target w w' ha ho
+  have hro := aggregateStages_readonly sem s coll pre w hp hno hw
+  exact ⟨hr.2.1, fun c hc => by rw [hr.2.2 c hc, hro.1]⟩
+
+/-- **`$out` passes its input through**: the call returns the very documents `pre` returns -/
+theorem out_passes_through (sem : Sem) (s : State) (coll target : String) (pre : List Stage)
+    (w' : World)
+    (h : aggregateStages Disc.reference sem s coll (pre ++ [.out target]) = .ok w') :
+    ∃ w, aggregateStages Disc.reference sem s coll pre = .ok w ∧
+      (allHaveId w.work = true → w'.work = w.work) := by
+  obtain ⟨w, hw, ho⟩ := aggregateStages_out_split sem s coll target pre w' h
+  exact ⟨w, hw, fun ha => (outStage_replaces sem target w w' ha ho).1⟩
+
+/-- `[{'$match': {}}, {'$out': 'c'}]` on the witness state: in the hypotheses, and it runs -/
+def outWitness : Option (Bool × List Val × List Val) :=
+  match aggregateStages Disc.reference Sem.trivial (mkState (.node (.cl 0) false [])) "a"
+      [.select "$match" (.doc [])],
+    aggregateStages Disc.reference Sem.trivial (mkState (.node (.cl 0) false [])) "a"
+      ([.select "$match" (.doc [])] ++ [.out "c"]) with
+  | .ok w, .ok w' => some (allHaveId w.work, toVals (getColl "c" w'.colls), toVals w'.work)
+  | _, _ => none
+
+example : outWitness.map (fun o => o.1 && o.2.1 == [doc0.toVal] && o.2.2 == [doc0.toVal]) = some true := by
   decide +kernel
 
 /-! ### repeatable -/
 
-/-- the answer depends on the persistent state only: when a call has left the collections, the
-    catalog and the pipeline object as they were, running it again gives the same answer
-    (identities of a run live in a run-local name space) -/
-theorem repeatable (D : Disc) (sem : Sem) (s s' : State) (coll : String) (out : List HV)
-    (h : aggregate D sem s coll = .ok (out, s'))
-    (hc : s'.colls = s.colls) (hi : s'.idx = s.idx) (hp : s'.pipe = s.pipe) (hn : s'.nextSt = s.nextSt) :
-    aggregate D sem s' coll = .ok (out, s') := by
+/-- **repeatable**: a successful call without `$out` leaves the persistent state — collections,
+    catalog, pipeline object — identical, so running it again IS the same computation and gives the
+    same answer (for the same draws of `$sample`; see `sample_submultiset` for what may vary) -/
+theorem repeatable (sem : Sem) (s s' : State) (coll : String) (out : List HV)
+    (hp : s.persistent = true) (hno : noOutStages (parsePipe s.pipe) = true)
+    (h : aggregate Disc.reference sem s coll = .ok (out, s')) :
+    s' = s ∧ aggregate Disc.reference sem s' coll = .ok (out, s') := by
+  have hr := aggregate_readonly sem s s' coll out hp hno h
+  have hpipe := pipeline_arg_unchanged sem s s' coll out hp hno h
   have : s' = s := by
     cases s; cases s'; simp_all
   rw [this] at h ⊢
-  exact h
+  exact ⟨rfl, h⟩
 
-example : (after Disc.reference Sem.trivial (mkState pipeFacetAdd) "a").isSome = true := by
+/-- **`$sample`**: whatever rearrangement the shuffle draws, the stage returns a sub-multiset of
+    its input of size `min size |input|` and changes nothing else (in particular not its options) -/
+theorem sample_submultiset (sem : Sem) (w w' : World) (loc : List Nat)
+    (hperm : ∀ n, (sem.shuffle n).Perm (List.range n))
+    (hs : runStage Disc.reference sem w (.sample loc) = .ok w') :
+    SubMultiset w'.work w.work ∧ w' = { w with work := w'.work } ∧
+      ∃ (id : Id) (kids : Kids) (n : Int), subAt loc w.pipe = some (.node id true kids) ∧
+        kget "size" kids = some (.atom (.int n)) ∧ w'.work.length = min n.toNat w.work.length :=
+  sample_stage sem w w' loc hperm hs
+
+example : ∀ n, (Sem.trivial.shuffle n).Perm (List.range n) := fun _ => List.Perm.refl _
+
+/-- the `$sample` witness draws one document -/
+def sampleWitnessLen : Option Nat :=
+  match runStage Disc.reference Sem.trivial ((mkState pipeSample).world Disc.reference "a")
+      (.sample [0, 0]) with
+  | .ok w' => some w'.work.length
+  | .error _ => none
+
+example : sampleWitnessLen = some 1 := by decide +kernel
+
+/-! ### `$facet` -/
+
+/-- **`$facet` isolation**: in any world the invariant of the call holds in, the stage returns one
+    document `{title_j: outs_j}` and `outs_j` is what sub-pipeline `j` returns when it is run
+    ALONE (`BranchAlone`): on a fresh deep copy of the stage's original input, against the
+    collections, catalog and pipeline object as they were before the stage — whatever its
+    siblings did to their documents.  (Equality with a stand-alone run is up to the numbering of
+    the fresh identities; the check compares the values on /repo.) -/
+theorem facet_isolated (sem : Sem) (b : Nat) (w w' : World) (bs : List (String × List Stage))
+    (h : WInv b w) (ho : w.out = []) (hno : noOutBranches bs = true)
+    (hs : runStage Disc.reference sem w (.facet bs) = .ok w') :
+    ∃ (n : Nat) (outs : List (List HV)), w'.work = [facetDoc n (bs.map (·.1)) outs] ∧
+      All2 (BranchAlone sem w w.work) bs outs :=
+  facet_isolated_stage sem b w w' bs h ho hno hs
+
+/-- the hypothesis of `facet_isolated` holds when the call starts … -/
+theorem facet_isolated_hyp_initial (s : State) (coll : String) (hp : s.persistent = true) :
+    WInv 0 (s.world Disc.reference coll) ∧ (s.world Disc.reference coll).out = [] :=
+  world_inv s coll hp
+
+/-- … and after every stage without `$out` -/
+theorem facet_isolated_hyp_step (sem : Sem) (ss : List Stage) (b : Nat) (w w' : World)
+    (h : WInv b w) (ho : w.out = []) (hno : noOutStages ss = true)
+    (hs : runStages Disc.reference sem w ss = .ok w') : WInv b w' ∧ w'.out = [] :=
+  ⟨(runStages_step sem ss b w w' h ho hno hs).1.inv, (runStages_step sem ss b w w' h ho hno hs).2⟩
+
+/-- the value of branch `y` (which only matches everything) inside the facet -/
+def branchY (D : Disc) (pipe : HV) : Option Val :=
+  (observe D Sem.trivial (mkState pipe) "a").bind (fun o =>
+    match o.1 with
+    | [.doc fs] => dget "y" fs
+    | _ => none)
+
+/-- on the former witnesses branch `y` now returns the stored documents -/
+theorem facet_witnesses_isolated :
+    ∀ pipe ∈ [pipeFacetAdd, pipeFacetLookup],
+      (branchY Disc.reference pipe).map (· == .arr [doc0.toVal]) = some true := by
+  decide +kernel
+
+/-! ### the laws fail under the discipline /repo had before the repairs -/
+
+/-- `$sample` popped `size` out of the caller's dict … -/
+theorem unrepaired_pipeline_arg_changed :
+    ((after Disc.unrepaired Sem.trivial (mkState pipeSample) "a").all
+      (fun s' => s'.pipe.toVal == pipeSample.toVal)) = false := by
+  decide +kernel
+
+/-- … and the second run of the same pipeline object raised -/
+theorem unrepaired_sample_second_run_fails :
+    ((after Disc.unrepaired Sem.trivial (mkState pipeSample) "a").map
+      (fun s' => (observe Disc.unrepaired Sem.trivial s' "a").isNone)) = some true := by
+  decide +kernel
+
+/-- a `$literal` was written into by a later `$addFields` on a dotted path -/
+theorem unrepaired_literal_written :
+    ((after Disc.unrepaired Sem.trivial (mkState pipeLiteral) "a").all
+      (fun s' => s'.pipe.toVal == pipeLiteral.toVal)) = false := by
+  decide +kernel
+
+/-- a sibling's `$addFields` on a nested path / `$lookup` was seen by branch `y` -/
+theorem unrepaired_facet_not_isolated :
+    ∀ pipe ∈ [pipeFacetAdd, pipeFacetLookup],
+      (branchY Disc.unrepaired pipe).map (· == .arr [doc0.toVal]) = some false := by
+  decide +kernel
+
+/-- under `Disc.reference` the same runs leave the pipeline object alone (instances of
+    `pipeline_arg_unchanged`, computed) -/
+theorem repaired_witnesses :
+    ∀ pipe ∈ [pipeSample, pipeLiteral, pipeFacetAdd, pipeFacetLookup],
+      ((observe Disc.reference Sem.trivial (mkState pipe) "a").all
+        (fun o => o.2.1 == pipe.toVal && o.2.2 == [("a", [doc0.toVal]), ("b", [docB.toVal])])) = true := by
   decide +kernel
 
 /-! ### the discipline the theorems are about is the one the source has now -/
